@@ -407,10 +407,10 @@ META = dict(
                 "judges the tables exported from the built library (every ICDF table strictly decreasing, ending in 0, first < 2^ftb; every word of CELT_PVQ_U_DATA equal to the "
                 "recurrence; cache bits non-decreasing and equal to log2_frac(V)-1, caps equal to their formula) and every recorded execution: decode_pulses/encode_pulses per index "
                 "(all indices for small V, sweeps of all indices up to 2^18 (quick) / 2^24 (thorough) by counters, stratified samples above), ec_laplace_decode at all points, "
-                "ec_laplace_encode intervals and round trips, ec_dec_icdf at all points and enc/dec round trips."),
+                "ec_laplace_encode intervals and round trips, ec_dec_icdf at all points and enc/dec round trips, ec_laplace_encode_p0/decode_p0 round trips in front of sentinel values and a sign census over all points."),
     level_note=("Trusted: TLC, the Json module. Reachable (N,K) with V > 2^18 (quick) / 2^24 (thorough) are sampled (both ends, sign split, strata, random), not swept; "
                 "those with 2^31 <= V < 2^32 (9 of the 329 on the pinned tree) are judged with base-2^16 pair arithmetic because TLC integers are 32 bit. Index sweeps are executed and counted by the harness (TLC judges the counters). "
                 "Equality with the model's particular enumeration order / Laplace interval construction / caps formula / cache maximality is bound as SPEC-DRIFT, not as a violation: "
                 "a self-consistent different code (e.g. LAPLACE_NMIN changed on both sides) still satisfies the property as written. The ICDF table list is hand-written in the "
-                "harness and guarded by a scan of libopus.a data symbols. Dynamic ICDFs (ec_laplace_*_p0, SILK VAD/LBRR flag tables built at run time) are out of scope."),
+                "harness and guarded by a scan of libopus.a data symbols. The p0/decay Laplace code (ec_laplace_*_p0, tables built at run time) is modelled and bound (theorem LaplaceP0, lapp0 records) over a corner grid of (p0, decay); the SILK VAD/LBRR flag tables built at run time are covered by G02/G06, not here; the value<->symbol mapping of the coarse-energy small tier is decided by G09 (thorough command)."),
 )
